@@ -77,6 +77,12 @@ func checkAccepted(c *codec, in []byte) (bool, *mc.Viol) {
 	if len(canon) > len(in) {
 		return v("canonical encoding longer than an accepted input", fmt.Sprintf("canonical %d bytes: %s", len(canon), trunc(hex.EncodeToString(canon), 120)))
 	}
+	if len(canon) == len(in) && !bytes.Equal(canon, in) {
+		// every field of these formats has one encoding per width: a re-encoding of the same length
+		// that differs from the accepted input means the decoder changed or dropped a field value
+		// (the input is the encoding of a well-formed value that decoding does not return)
+		return v("decoding does not return the value that was encoded (same-length re-encoding differs from the accepted input)", fmt.Sprintf("canonical %s", trunc(hex.EncodeToString(canon), 160)))
+	}
 	hand := o.Hand()
 	if !bytes.Equal(hand, canon) {
 		return v("Marshal after Unmarshal differs from the encoding of the decoded fields", fmt.Sprintf("Marshal=%s fields-encoding=%s", trunc(hex.EncodeToString(canon), 100), trunc(hex.EncodeToString(hand), 100)))
